@@ -53,6 +53,9 @@ M = {
     "moveback": {"op": "move", "set": "1", "dst": "INBOX"},
     "noop": {"op": "noop"},
     "capability": {"op": "capability"},
+    "idle": {"op": "idle"},
+    "done": {"op": "done"},
+    "store1y": {"op": "store", "set": "1", "mode": "+", "flags": "kwy"},
     "lsub": {"op": "lsub"},
     "store3del": {"op": "store", "set": "3", "mode": "+", "flags": "\\Deleted"},
     "store2flag": {"op": "store", "set": "2", "mode": "+", "flags": "\\Flagged"},
@@ -132,6 +135,11 @@ def scenarios(tier):
         # notification waiting (A's STORE; no NOOP by B in the set-up), while another session's EXPUNGE adds more
         dict(scn("expunge|capability,noop slow reader", SEL_AB + DEL1[:1], A=["expunge"], B=["capability", "noop"]), slow=["B"]),
         dict(scn("expunge|lsub,noop slow reader", SEL_AB + DEL1[:1], A=["expunge"], B=["lsub", "noop"]), slow=["B"]),
+        # entering IDLE flushes what is waiting and then switches to immediate delivery: flag changes made meanwhile keep their order
+        dict(scn("store,store|idle,done slow reader", SEL_AB + DEL1[:1], A=["store1", "store1y"], B=["idle", "done"]), slow=["B"]),
+        dict(scn("expunge|idle,done slow reader", SEL_AB + DEL1[:1], A=["expunge"], B=["idle", "done"]), slow=["B"]),
+        # start state: B is inside the flush that IDLE does before it switches to immediate delivery (its second drain)
+        dict(scn("store,store|idle parked in its flush,done", SEL_AB + DEL1[:1], A=["store1", "store1y"], B=["idle", "done"]), parked=["B"], parked_at={"B": 2}),
     ]
     if tier != "quick":
         S += [
